@@ -7,12 +7,12 @@ PROPS = {
     "C16": dict(
         level="exploration",
         technique="property-based testing (rapid): generated issue/fail/succeed histories over the real request builders and token "
-                  "generator against a token-ledger model; real OpenAPI calls over real ecs/eflo SDK clients with a gated fake "
+                  "generator (default and small cache capacities) against a token-ledger model; real OpenAPI calls over real ecs/eflo SDK clients with a gated fake "
                   "HTTP transport (harness-owned interleavings, drawn fault plans, per-call contexts that are already cancelled / "
                   "expired or cancelled mid-call); creates issued both from one fresh option and, node-controller style, from a "
                   "caller-owned shared leading option plus a fresh one (also through CreateNetworkInterfaceV2); goroutine stress "
                   "with an interleaving-sound ledger, also built with -race",
-        rule="cases drawn by rapid: a pool of canonical parameter sets (one-field neighbours, tag maps of 0-12 entries rebuilt per "
+        rule="cases drawn by rapid: a pool of canonical parameter sets (one-field neighbours, tag maps of 0-30 entries, sizes 19-23 around the API limit of 20 over-weighted, rebuilt per "
              "attempt in a drawn insertion order, every set attempted >= 8 times) and a history of attempts (each create drawn as "
              "single-option or shared-leading-option call; on the wire each call drawn with a live, cancelled or expired context "
              "and attempts optionally cancelled while waiting); non-trivial = an "
@@ -22,7 +22,9 @@ PROPS = {
             "two option values are 'the same parameters' iff they agree on every field that reaches the cloud request of that kind "
             "(tags as a set of pairs, security groups as a set); attempts of one parameter set keep the security-group order",
             "with several failed attempts of equal parameters a retry may carry the token of any of them (multiset reading)",
-            "fewer than 500 live parameter sets (the generator's LRU is not driven to eviction)",
+            "the history never has more tokens parked at once than the capacity of the generator's cache (IDEMPOTENT_KEY_CACHE_SIZE, "
+            "default 500; a third of the builder histories run with capacity 2-8 and more parameter sets than slots, a fail that "
+            "would exceed the capacity is played as a success): under that bound no parked token may be lost",
             "a caller that passes the same leading option object to every create passes 'the same parameters' each time: the "
             "client is expected not to write into caller-owned option values",
             "a call aborted on the client side before anything is sent is not an attempt of its own: the tokens parked by earlier "
@@ -35,8 +37,8 @@ PROPS = {
                    "a token of a succeeded attempt being issued again for the same parameters is recorded but not judged "
                    "(the statement does not speak about it); races needing a preemption between two specific instructions may be missed",
         tests=[
-            dict(unit="aliyunclient", test="TestVerifC16Machine", quick=16000, thorough=400000),
-            dict(unit="aliyunclient", test="TestVerifC16Wire", quick=6000, thorough=150000),
+            dict(unit="aliyunclient", test="TestVerifC16Machine", quick=16000, thorough=300000),
+            dict(unit="aliyunclient", test="TestVerifC16Wire", quick=6000, thorough=120000),
             dict(unit="aliyunclient", test="TestVerifC16Stress", quick=480, thorough=8000),
             dict(unit="aliyunclient_race", test="TestVerifC16StressRace", quick=96, thorough=1600),
             dict(unit="aliyunclient", test="TestVerifC16KnownWitness", quick=1, thorough=1, shards=1),
